@@ -2,6 +2,7 @@
 descriptors are used (DESIGN.md 4/C16)."""
 from .. import ir, paths
 from ..storagesim import simulate, KINDS
+from ..exc import rule_x_barrier
 from ..build import AnalysisBroken
 
 RULES = ("FD-TYPESTATE", "FAIL-CONTAINED", "REC-UNBOUNDED", "MEM-UAF",
@@ -18,7 +19,9 @@ EXPLANATION = (
     "failed write during append must leave the HAL state not Running; re-entry "
     "of a function with an unchanged abstract state is unbounded recursion. "
     "Plus LOOP-PROGRESS on the platform's write-all loop: every path around "
-    "the loop changes a variable its exit condition reads. Exhaustive within "
+    "the loop changes a variable its exit condition reads. X-BARRIER: no "
+    "exception can leave a C++ function stored in a Storage slot, tiff_init or "
+    "side_by_side_tiff_init, a noexcept member or a destructor. Exhaustive within "
     "the abstraction (constants, enumerators, pointers; counters unknown); OS "
     "behaviour (flock, hangs inside system calls) is not modelled.")
 
@@ -89,9 +92,9 @@ def loop_progress(prog, res, fname="file_write"):
     return n
 
 
-def run_storage_rules(prog, res, rules, label):
+def run_storage_rules(prog, res, rules, label, kinds=None):
     total_states = total_trans = 0
-    for kind in KINDS:
+    for kind in (kinds or KINDS):
         m, it, ex = simulate(prog, kind)
         if it.truncated:
             raise AnalysisBroken("simulation of %s truncated: %s" % (kind, it.truncated[:3]))
@@ -136,5 +139,7 @@ def run(ctx, res):
     n = loop_progress(prog, res, "file_write")
     if n < 1:
         raise AnalysisBroken("file_write no longer contains a retry loop")
+    rule_x_barrier(prog, res, tus=["storage/tiff.cpp", "storage/side-by-side-tiff.cpp"])
+    res.require_min("X-BARRIER", 30)
     res.require_min("FD/FAIL-SIM", 4)
     res.require_min("LOOP-PROGRESS", 1)
